@@ -1,4 +1,5 @@
 import Toodee.Spec.Cells
+import Toodee.Proofs.CellsLemmas
 /-
   C13 — Swap and fill primitives change exactly the named cells.
 
@@ -18,6 +19,39 @@ def swapRowsG (r1 r2 : Nat) : Nat × Nat → Nat × Nat := fun cr => (cr.1, swap
 /-- cell permutation "exchange columns c1 and c2" -/
 def swapColsG (c1 c2 : Nat) : Nat × Nat → Nat × Nat := fun cr => (swapIdx c1 c2 cr.1, cr.2)
 
+/-! ### helpers -/
+
+theorem swapCellG_comm (a b : Nat × Nat) : swapCellG a b = swapCellG b a := by
+  funext cr
+  unfold swapCellG
+  by_cases h1 : cr = a
+  · by_cases h2 : cr = b
+    · rw [if_pos h1, if_pos h2, ← h1, ← h2]
+    · rw [if_pos h1, if_neg h2, if_pos h1]
+  · by_cases h2 : cr = b
+    · rw [if_neg h1, if_pos h2, if_pos h2]
+    · rw [if_neg h1, if_neg h2, if_neg h2, if_neg h1]
+
+theorem swapRowsG_comm (r1 r2 : Nat) : swapRowsG r1 r2 = swapRowsG r2 r1 := by
+  funext cr; simp [swapRowsG, swapIdx_comm r1 r2]
+
+/-- `ptr::swap` of two cell positions of a view, as a cell permutation -/
+theorem gather_swapCells {v : VW} (buf : List α) (h : v.Inv buf.length) {c1 r1 c2 r2 : Nat}
+    (hc1 : c1 < v.numCols) (hr1 : r1 < v.numRows) (hc2 : c2 < v.numCols) (hr2 : r2 < v.numRows) :
+    gather buf (swapPosMap (v.pos c1 r1) (v.pos c2 r2)) = gather buf (v.mapCells (swapCellG (c1, r1) (c2, r2))) :=
+  gather_congr buf _ _ (fun p _ => VW.swapPosMap_cells h (a := (c1, r1)) (b := (c2, r2)) hc1 hr1 hc2 hr2 p)
+
+/-- `swap_with_slice` of two distinct row windows of a view, as a cell permutation -/
+theorem gather_swapRows {v : VW} (buf : List α) (h : v.Inv buf.length) {r1 r2 : Nat}
+    (hr1 : r1 < v.numRows) (hr2 : r2 < v.numRows) (hne : r1 ≠ r2) :
+    gather buf (swapWinMap (v.rowWin r1) (v.rowWin r2)) = gather buf (v.mapCells (swapRowsG r1 r2)) :=
+  gather_congr buf _ _ (fun p _ => VW.swapWinMap_rows h hr1 hr2 hne p)
+
+/-- exchanging a row with itself is the identity -/
+theorem gather_swapRows_self (v : VW) (buf : List α) (r : Nat) :
+    gather buf (v.mapCells (swapRowsG r r)) = buf :=
+  gather_eq_self buf _ (fun p _ => VW.mapCells_eq_self _ (fun c r' _ _ => by simp [swapRowsG, swapIdx_self]) p)
+
 /-! ### swap (two cells) -/
 
 theorem C13_swap_owned (m : Mode) (t : TD α) (h : t.Inv) (c1 r1 c2 r2 : Nat)
@@ -26,7 +60,232 @@ theorem C13_swap_owned (m : Mode) (t : TD α) (h : t.Inv) (c1 r1 c2 r2 : Nat)
       t.swap m c1 r1 c2 r2 = .ok (gather t.data (t.asView.mapCells (swapCellG (c1, r1) (c2, r2))))) ∧
     (¬ (c1 < t.numCols ∧ c2 < t.numCols ∧ r1 < t.numRows ∧ r2 < t.numRows) →
       t.swap m c1 r1 c2 r2 = .error .panic) := by
-  sorry
+  obtain ⟨hvi, _⟩ := TD.asView_inv t h
+  constructor
+  · rintro ⟨hc1, hc2, hr1, hr2⟩
+    have hlen := h.len
+    have hword := h.word
+    have hcell1 : r1 * t.numCols + c1 < t.data.length := hlen ▸ cell_lt hc1 hr1
+    have hcell2 : r2 * t.numCols + c2 < t.data.length := hlen ▸ cell_lt hc2 hr2
+    have e1 : umul m r1 t.numCols = .ok (r1 * t.numCols) := umul_ok m _ _ (by omega)
+    have e2 : umul m r2 t.numCols = .ok (r2 * t.numCols) := umul_ok m _ _ (by omega)
+    have a1 : uadd m (r1 * t.numCols) c1 = .ok (r1 * t.numCols + c1) := uadd_ok m _ _ (by omega)
+    have a2 : uadd m (r2 * t.numCols) c2 = .ok (r2 * t.numCols + c2) := uadd_ok m _ _ (by omega)
+    have i1 : t.win.getIdx (r1 * t.numCols + c1) = .ok (t.asView.pos c1 r1) := by
+      rw [Win.getIdx_ok _ (by simpa [TD.win] using hcell1)]; simp [TD.win, TD.asView, VW.pos]
+    have i2 : t.win.getIdx (r2 * t.numCols + c2) = .ok (t.asView.pos c2 r2) := by
+      rw [Win.getIdx_ok _ (by simpa [TD.win] using hcell2)]; simp [TD.win, TD.asView, VW.pos]
+    have key : t.swap m c1 r1 c2 r2
+        = .ok (gather t.data (swapPosMap (t.asView.pos c1 r1) (t.asView.pos c2 r2))) := by
+      simp only [TD.swap, hc1, hc2, hr1, hr2, e1, e2, a1, a2, i1, i2, and_self, not_true_eq_false, if_false,
+        ok_bind, pure_eq]
+    rw [key, gather_swapCells t.data hvi hc1 hr1 hc2 hr2]
+  · intro hn
+    unfold TD.swap
+    by_cases hc : c1 < t.numCols ∧ c2 < t.numCols
+    · have hr : ¬ (r1 < t.numRows ∧ r2 < t.numRows) := fun hr => hn ⟨hc.1, hc.2, hr.1, hr.2⟩
+      simp [hc, hr]
+    · simp [hc]
+
+/-! ### swap_rows -/
+
+/-- the steps of `TooDee::swap_rows` on ordered in-range rows -/
+theorem TD.swapRows_steps (m : Mode) (t : TD α) (h : t.Inv) {a b : Nat} (hab : a < b) (hb : b < t.numRows) :
+    umul m a t.numCols = .ok (a * t.numCols) ∧
+    t.win.getFrom (a * t.numCols) = .ok ⟨a * t.numCols, t.data.length - a * t.numCols⟩ ∧
+    Win.splitAt ⟨a * t.numCols, t.data.length - a * t.numCols⟩ t.numCols
+      = .ok (t.asView.rowWin a, ⟨a * t.numCols + t.numCols, t.data.length - a * t.numCols - t.numCols⟩) ∧
+    usub m b a = .ok (b - a) ∧
+    usub m (b - a) 1 = .ok (b - a - 1) ∧
+    umul m (b - a - 1) t.numCols = .ok ((b - a - 1) * t.numCols) ∧
+    uadd m ((b - a - 1) * t.numCols) t.numCols = .ok ((b - a - 1) * t.numCols + t.numCols) ∧
+    Win.getRange ⟨a * t.numCols + t.numCols, t.data.length - a * t.numCols - t.numCols⟩
+      ((b - a - 1) * t.numCols) ((b - a - 1) * t.numCols + t.numCols) = .ok (t.asView.rowWin b) ∧
+    (t.asView.rowWin a).len = t.numCols ∧ (t.asView.rowWin b).len = t.numCols := by
+  have hlen := h.len
+  have hword := h.word
+  have ha : a < t.numRows := by omega
+  have hea : a * t.numCols + t.numCols ≤ t.data.length := hlen ▸ row_end_le ha
+  have heb : b * t.numCols + t.numCols ≤ t.data.length := hlen ▸ row_end_le hb
+  have hd : (b - a - 1) * t.numCols + t.numCols + a * t.numCols = b * t.numCols := by
+    have e : (b - a - 1 + 1 + a) * t.numCols = b * t.numCols := by congr 1; omega
+    rw [Nat.add_mul, Nat.add_mul, Nat.one_mul] at e
+    exact e
+  have w1 : t.asView.rowWin a = ⟨a * t.numCols, t.numCols⟩ := by simp [VW.rowWin, VW.pos, TD.asView, TD.win]
+  have w2 : t.asView.rowWin b = ⟨b * t.numCols, t.numCols⟩ := by simp [VW.rowWin, VW.pos, TD.asView, TD.win]
+  refine ⟨umul_ok m _ _ (by omega), ?_, ?_, usub_ok m _ _ (by omega), usub_ok m _ _ (by omega),
+    umul_ok m _ _ (by omega), uadd_ok m _ _ (by omega), ?_, by rw [w1], by rw [w2]⟩
+  · simp [Win.getFrom, TD.win]; omega
+  · rw [w1]; simp [Win.splitAt]; omega
+  · have x1 : a * t.numCols + t.numCols + (b - a - 1) * t.numCols = b * t.numCols := by omega
+    have x2 : (b - a - 1) * t.numCols + t.numCols - (b - a - 1) * t.numCols = t.numCols := by omega
+    rw [Win.getRange_ok _ (by omega) (by simp only; omega), w2]
+    simp only [x1, x2]
+
+theorem C13_swap_rows_owned (m : Mode) (t : TD α) (h : t.Inv) (r1 r2 : Nat) (hw : r1 < WORD ∧ r2 < WORD) :
+    ((r1 < t.numRows ∧ r2 < t.numRows) →
+      t.swapRows m r1 r2 = .ok (gather t.data (t.asView.mapCells (swapRowsG r1 r2)))) ∧
+    (¬ (r1 < t.numRows ∧ r2 < t.numRows) → t.swapRows m r1 r2 = .error .panic) := by
+  obtain ⟨hvi, _⟩ := TD.asView_inv t h
+  constructor
+  · rintro ⟨hr1, hr2⟩
+    have hr1' : r1 < t.asView.numRows := hr1
+    have hr2' : r2 < t.asView.numRows := hr2
+    rcases Nat.lt_trichotomy r1 r2 with hlt | heq | hgt
+    · obtain ⟨e1, g1, s1, e2, e3, e4, e5, g2, l1, l2⟩ := TD.swapRows_steps m t h hlt hr2
+      rw [← gather_swapRows t.data hvi hr1' hr2' (by omega)]
+      simp only [TD.swapRows, hr1, hr2, show ¬ r1 = r2 by omega, show ¬ r2 < r1 by omega, e1, g1, s1, e2, e3, e4,
+        e5, g2, l1, l2, and_self, not_true_eq_false, if_false, ok_bind, pure_eq, and_false]
+    · subst heq
+      simp [TD.swapRows, hr1, gather_swapRows_self]
+    · obtain ⟨e1, g1, s1, e2, e3, e4, e5, g2, l1, l2⟩ := TD.swapRows_steps m t h hgt hr1
+      rw [swapRowsG_comm, ← gather_swapRows t.data hvi hr2' hr1' (by omega)]
+      simp only [TD.swapRows, hr1, hr2, show ¬ r1 = r2 by omega, hgt, e1, g1, s1, e2, e3, e4,
+        e5, g2, l1, l2, and_self, not_true_eq_false, if_false, if_true, ok_bind, pure_eq, and_false]
+  · intro hn
+    simp [TD.swapRows, hn]
+
+/-- the steps of `TooDeeViewMut::swap_rows` on ordered in-range rows -/
+theorem VW.swapRows_steps (m : Mode) (v : VW) (n : Nat) (h : v.Inv n) {a b : Nat} (hab : a < b)
+    (hb : b < v.numRows) :
+    umul m a v.stride = .ok (a * v.stride) ∧
+    v.data.getFrom (a * v.stride) = .ok ⟨v.data.off + a * v.stride, v.data.len - a * v.stride⟩ ∧
+    Win.splitAt ⟨v.data.off + a * v.stride, v.data.len - a * v.stride⟩ v.numCols
+      = .ok (v.rowWin a, ⟨v.data.off + a * v.stride + v.numCols, v.data.len - a * v.stride - v.numCols⟩) ∧
+    usub m b a = .ok (b - a) ∧
+    umul m (b - a) v.stride = .ok ((b - a) * v.stride) ∧
+    usub m ((b - a) * v.stride) v.numCols = .ok ((b - a) * v.stride - v.numCols) ∧
+    uadd m ((b - a) * v.stride - v.numCols) v.numCols = .ok ((b - a) * v.stride - v.numCols + v.numCols) ∧
+    Win.getRange ⟨v.data.off + a * v.stride + v.numCols, v.data.len - a * v.stride - v.numCols⟩
+      ((b - a) * v.stride - v.numCols) ((b - a) * v.stride - v.numCols + v.numCols) = .ok (v.rowWin b) ∧
+    (v.rowWin a).len = v.numCols ∧ (v.rowWin b).len = v.numCols := by
+  have hin := h.inside
+  have hword := h.word
+  have hst := h.stride
+  have heb := h.row_end_le hb
+  have hs1 : a * v.stride + v.stride ≤ b * v.stride := by
+    have := Nat.mul_le_mul_right v.stride (Nat.succ_le_of_lt hab)
+    rw [Nat.succ_mul] at this; exact this
+  have hd : (b - a) * v.stride = b * v.stride - a * v.stride := Nat.sub_mul b a v.stride
+  have w1 : v.rowWin a = ⟨v.data.off + a * v.stride, v.numCols⟩ := by simp [VW.rowWin, VW.pos]
+  have w2 : v.rowWin b = ⟨v.data.off + b * v.stride, v.numCols⟩ := by simp [VW.rowWin, VW.pos]
+  refine ⟨umul_ok m _ _ (by omega), ?_, ?_, usub_ok m _ _ (by omega), umul_ok m _ _ (by omega),
+    usub_ok m _ _ (by omega), uadd_ok m _ _ (by omega), ?_, by rw [w1], by rw [w2]⟩
+  · simp [Win.getFrom]; omega
+  · rw [w1]; simp [Win.splitAt]; omega
+  · have x1 : v.data.off + a * v.stride + v.numCols + ((b - a) * v.stride - v.numCols)
+        = v.data.off + b * v.stride := by omega
+    have x2 : (b - a) * v.stride - v.numCols + v.numCols - ((b - a) * v.stride - v.numCols) = v.numCols := by
+      omega
+    rw [Win.getRange_ok _ (by omega) (by simp only; omega), w2]
+    simp only [x1, x2]
+
+theorem C13_swap_rows_view (m : Mode) (v : VW) (buf : List α) (h : v.Inv buf.length) (r1 r2 : Nat)
+    (hw : r1 < WORD ∧ r2 < WORD) :
+    ((r1 < v.numRows ∧ r2 < v.numRows) →
+      v.swapRows m buf r1 r2 = .ok (gather buf (v.mapCells (swapRowsG r1 r2)))) ∧
+    (¬ (r1 < v.numRows ∧ r2 < v.numRows) → v.swapRows m buf r1 r2 = .error .panic) := by
+  constructor
+  · rintro ⟨hr1, hr2⟩
+    rcases Nat.lt_trichotomy r1 r2 with hlt | heq | hgt
+    · obtain ⟨e1, g1, s1, e2, e3, e4, e5, g2, l1, l2⟩ := VW.swapRows_steps m v _ h hlt hr2
+      rw [← gather_swapRows buf h hr1 hr2 (by omega)]
+      simp only [VW.swapRows, hr1, hr2, show ¬ r1 = r2 by omega, show ¬ r2 < r1 by omega, e1, g1, s1, e2, e3, e4,
+        e5, g2, l1, l2, and_self, not_true_eq_false, if_false, ok_bind, pure_eq, and_false]
+    · subst heq
+      simp [VW.swapRows, hr1, gather_swapRows_self]
+    · obtain ⟨e1, g1, s1, e2, e3, e4, e5, g2, l1, l2⟩ := VW.swapRows_steps m v _ h hgt hr1
+      rw [swapRowsG_comm, ← gather_swapRows buf h hr2 hr1 (by omega)]
+      simp only [VW.swapRows, hr1, hr2, show ¬ r1 = r2 by omega, hgt, e1, g1, s1, e2, e3, e4,
+        e5, g2, l1, l2, and_self, not_true_eq_false, if_false, if_true, ok_bind, pure_eq, and_false]
+  · intro hn
+    simp [VW.swapRows, hn]
+
+theorem C13_swap_rows_default (m : Mode) (v : VW) (buf : List α) (h : v.Inv buf.length) (a : Acc)
+    (ha : a.Of v buf.length) (r1 r2 : Nat) (hw : r1 < WORD ∧ r2 < WORD) :
+    ((r1 < v.numRows ∧ r2 < v.numRows) →
+      a.swapRows m buf r1 r2 = .ok (gather buf (v.mapCells (swapRowsG r1 r2)))) ∧
+    (¬ (r1 < v.numRows ∧ r2 < v.numRows) → a.swapRows m buf r1 r2 = .error .panic) := by
+  have hR := ha.rows
+  constructor
+  · rintro ⟨hr1, hr2⟩
+    rcases Nat.lt_trichotomy r1 r2 with hlt | heq | hgt
+    · obtain ⟨it', it'', n1, n2⟩ := ha.nth_row_pair m hlt hw.2
+      rw [if_pos hr1] at n1
+      rw [if_pos hr2] at n2
+      have e2 : usub m r2 r1 = .ok (r2 - r1) := usub_ok m _ _ (by omega)
+      have e3 : usub m (r2 - r1) 1 = .ok (r2 - r1 - 1) := usub_ok m _ _ (by omega)
+      rw [← gather_swapRows buf h hr1 hr2 (by omega)]
+      simp only [Acc.swapRows, hR, hr1, hr2, show ¬ r1 = r2 by omega, show ¬ r2 < r1 by omega, n1, n2, e2, e3,
+        unwrapWin, VW.rowWin, and_self, not_true_eq_false, if_false, ok_bind, pure_eq, ne_eq]
+    · subst heq
+      simp [Acc.swapRows, hR, hr1, gather_swapRows_self]
+    · obtain ⟨it', it'', n1, n2⟩ := ha.nth_row_pair m hgt hw.1
+      rw [if_pos hr2] at n1
+      rw [if_pos hr1] at n2
+      have e2 : usub m r1 r2 = .ok (r1 - r2) := usub_ok m _ _ (by omega)
+      have e3 : usub m (r1 - r2) 1 = .ok (r1 - r2 - 1) := usub_ok m _ _ (by omega)
+      rw [swapRowsG_comm, ← gather_swapRows buf h hr2 hr1 (by omega)]
+      simp only [Acc.swapRows, hR, hr1, hr2, show ¬ r1 = r2 by omega, hgt, n1, n2, e2, e3,
+        unwrapWin, VW.rowWin, and_self, not_true_eq_false, if_false, if_true, ok_bind, pure_eq, ne_eq]
+  · intro hn
+    simp [Acc.swapRows, hR, hn]
+
+/-- the default `swap` normalises the order of the two cells by row -/
+theorem Acc.swap_comm_of_gt (m : Mode) (a : Acc) (buf : List α) (c1 r1 c2 r2 : Nat) (hgt : r2 < r1) :
+    a.swap m buf (c1, r1) (c2, r2) = a.swap m buf (c2, r2) (c1, r1) := by
+  unfold Acc.swap
+  simp only [gt_iff_lt, hgt, show ¬ r1 < r2 by omega, if_true, if_false]
+
+theorem Acc.swap_le (m : Mode) (v : VW) (buf : List α) (h : v.Inv buf.length) (a : Acc) (ha : a.Of v buf.length)
+    (c1 r1 c2 r2 : Nat) (hw : r2 < WORD) (hle : r1 ≤ r2) :
+    ((c1 < v.numCols ∧ c2 < v.numCols ∧ r1 < v.numRows ∧ r2 < v.numRows) →
+      a.swap m buf (c1, r1) (c2, r2) = .ok (gather buf (v.mapCells (swapCellG (c1, r1) (c2, r2))))) ∧
+    (¬ (c1 < v.numCols ∧ c2 < v.numCols ∧ r1 < v.numRows ∧ r2 < v.numRows) →
+      a.swap m buf (c1, r1) (c2, r2) = .error .panic) := by
+  have hC := ha.cols
+  have hng : ¬ r2 < r1 := by omega
+  rcases Nat.lt_or_eq_of_le hle with hlt | heq
+  · obtain ⟨it', it'', n1, n2⟩ := ha.nth_row_pair m hlt hw
+    have hne : ¬ r1 = r2 := by omega
+    have e2 : usub m r2 r1 = .ok (r2 - r1) := usub_ok m _ _ (by omega)
+    have e3 : usub m (r2 - r1) 1 = .ok (r2 - r1 - 1) := usub_ok m _ _ (by omega)
+    constructor
+    · rintro ⟨hc1, hc2, hr1, hr2⟩
+      rw [if_pos hr1] at n1
+      rw [if_pos hr2] at n2
+      rw [← gather_swapCells buf h hc1 hr1 hc2 hr2]
+      simp only [Acc.swap, gt_iff_lt, hng, hC, hc1, hc2, hne, n1, n2, e2, e3, unwrapWin,
+        VW.rowWin_getIdx v _ hc1, VW.rowWin_getIdx v _ hc2,
+        and_self, not_true_eq_false, if_false, ok_bind, pure_eq]
+    · intro hn
+      by_cases hc : c1 < v.numCols ∧ c2 < v.numCols
+      · by_cases hr1 : r1 < v.numRows
+        · have hr2 : ¬ r2 < v.numRows := fun hr2 => hn ⟨hc.1, hc.2, hr1, hr2⟩
+          rw [if_pos hr1] at n1
+          rw [if_neg hr2] at n2
+          simp only [Acc.swap, gt_iff_lt, hng, hC, hc, hne, n1, n2, e2, e3, unwrapWin,
+            and_self, not_true_eq_false, if_false, ok_bind, err_bind, pure_eq, throw_eq]
+        · rw [if_neg hr1] at n1
+          simp only [Acc.swap, gt_iff_lt, hng, hC, hc, n1, unwrapWin,
+            and_self, not_true_eq_false, if_false, ok_bind, err_bind, pure_eq, throw_eq]
+      · simp only [Acc.swap, gt_iff_lt, hng, hC, hc, not_false_eq_true, if_false, if_true, err_bind, throw_eq]
+  · subst heq
+    obtain ⟨it', n1, _⟩ := ha.nth_row m r1 hw
+    constructor
+    · rintro ⟨hc1, hc2, hr1, -⟩
+      rw [if_pos hr1] at n1
+      rw [← gather_swapCells buf h hc1 hr1 hc2 hr1]
+      simp only [Acc.swap, gt_iff_lt, hng, hC, hc1, hc2, n1, unwrapWin,
+        VW.rowWin_getIdx v _ hc1, VW.rowWin_getIdx v _ hc2,
+        and_self, not_true_eq_false, if_false, if_true, ok_bind, pure_eq]
+    · intro hn
+      by_cases hc : c1 < v.numCols ∧ c2 < v.numCols
+      · have hr1 : ¬ r1 < v.numRows := fun hr1 => hn ⟨hc.1, hc.2, hr1, hr1⟩
+        rw [if_neg hr1] at n1
+        simp only [Acc.swap, gt_iff_lt, hng, hC, hc, n1, unwrapWin,
+          and_self, not_true_eq_false, if_false, ok_bind, err_bind, pure_eq, throw_eq]
+      · simp only [Acc.swap, gt_iff_lt, hng, hC, hc, not_false_eq_true, if_false, if_true, err_bind, throw_eq]
 
 theorem C13_swap_default (m : Mode) (v : VW) (buf : List α) (h : v.Inv buf.length) (a : Acc) (ha : a.Of v buf.length)
     (c1 r1 c2 r2 : Nat) (hw : c1 < WORD ∧ r1 < WORD ∧ c2 < WORD ∧ r2 < WORD) :
@@ -34,29 +293,12 @@ theorem C13_swap_default (m : Mode) (v : VW) (buf : List α) (h : v.Inv buf.leng
       a.swap m buf (c1, r1) (c2, r2) = .ok (gather buf (v.mapCells (swapCellG (c1, r1) (c2, r2))))) ∧
     (¬ (c1 < v.numCols ∧ c2 < v.numCols ∧ r1 < v.numRows ∧ r2 < v.numRows) →
       a.swap m buf (c1, r1) (c2, r2) = .error .panic) := by
-  sorry
-
-/-! ### swap_rows -/
-
-theorem C13_swap_rows_owned (m : Mode) (t : TD α) (h : t.Inv) (r1 r2 : Nat) (hw : r1 < WORD ∧ r2 < WORD) :
-    ((r1 < t.numRows ∧ r2 < t.numRows) →
-      t.swapRows m r1 r2 = .ok (gather t.data (t.asView.mapCells (swapRowsG r1 r2)))) ∧
-    (¬ (r1 < t.numRows ∧ r2 < t.numRows) → t.swapRows m r1 r2 = .error .panic) := by
-  sorry
-
-theorem C13_swap_rows_view (m : Mode) (v : VW) (buf : List α) (h : v.Inv buf.length) (r1 r2 : Nat)
-    (hw : r1 < WORD ∧ r2 < WORD) :
-    ((r1 < v.numRows ∧ r2 < v.numRows) →
-      v.swapRows m buf r1 r2 = .ok (gather buf (v.mapCells (swapRowsG r1 r2)))) ∧
-    (¬ (r1 < v.numRows ∧ r2 < v.numRows) → v.swapRows m buf r1 r2 = .error .panic) := by
-  sorry
-
-theorem C13_swap_rows_default (m : Mode) (v : VW) (buf : List α) (h : v.Inv buf.length) (a : Acc)
-    (ha : a.Of v buf.length) (r1 r2 : Nat) (hw : r1 < WORD ∧ r2 < WORD) :
-    ((r1 < v.numRows ∧ r2 < v.numRows) →
-      a.swapRows m buf r1 r2 = .ok (gather buf (v.mapCells (swapRowsG r1 r2)))) ∧
-    (¬ (r1 < v.numRows ∧ r2 < v.numRows) → a.swapRows m buf r1 r2 = .error .panic) := by
-  sorry
+  by_cases hle : r1 ≤ r2
+  · exact Acc.swap_le m v buf h a ha c1 r1 c2 r2 hw.2.2.2 hle
+  · have key := Acc.swap_le m v buf h a ha c2 r2 c1 r1 hw.2.1 (by omega)
+    rw [Acc.swap_comm_of_gt m a buf c1 r1 c2 r2 (by omega), swapCellG_comm]
+    exact ⟨fun ⟨h1, h2, h3, h4⟩ => key.1 ⟨h2, h1, h4, h3⟩,
+      fun hn => key.2 (fun ⟨h1, h2, h3, h4⟩ => hn ⟨h2, h1, h4, h3⟩)⟩
 
 /-! ### swap_cols (never overridden) -/
 
@@ -65,7 +307,44 @@ theorem C13_swap_cols (v : VW) (buf : List α) (h : v.Inv buf.length) (a : Acc) 
     ((c1 < v.numCols ∧ c2 < v.numCols) →
       a.swapCols buf c1 c2 = .ok (gather buf (v.mapCells (swapColsG c1 c2)))) ∧
     (¬ (c1 < v.numCols ∧ c2 < v.numCols) → a.swapCols buf c1 c2 = .error .panic) := by
-  sorry
+  have hC := ha.cols
+  constructor
+  · rintro ⟨hc1, hc2⟩
+    simp only [Acc.swapCols, hC, hc1, hc2, not_true_eq_false, if_false, ha.collect_rows, ok_bind]
+    rw [List.foldlM_map]
+    refine (VW.foldlM_rows_perm h _ (fun cr => swapIdx c1 c2 cr.1) ?_ ?_ buf rfl v.numRows
+      (Nat.le_refl _)).trans ?_
+    · intro c r hc _; exact swapIdx_lt hc1 hc2 hc
+    · intro b r hb hr
+      have hb' : v.Inv b.length := hb ▸ h
+      simp only [VW.rowWin_getIdx v r hc1, VW.rowWin_getIdx v r hc2, ok_bind, pure_eq]
+      rw [gather_swapCells b hb' hc1 hr hc2 hr]
+      congr 1
+      apply gather_congr
+      intro p _
+      apply VW.mapCells_congr
+      intro c r' _ _
+      unfold swapCellG swapIdx
+      by_cases h1 : r' = r
+      · subst h1
+        by_cases h2 : c = c1
+        · simp [h2]
+        · by_cases h3 : c = c2
+          · subst h3; simp [h2]
+          · simp [h2, h3]
+      · simp [h1]
+    · congr 1
+      apply gather_congr
+      intro p _
+      apply VW.mapCells_congr
+      intro c r _ hr
+      simp [swapColsG, hr]
+  · intro hn
+    unfold Acc.swapCols
+    by_cases hc1 : c1 < v.numCols
+    · have hc2 : ¬ c2 < v.numCols := fun hc2 => hn ⟨hc1, hc2⟩
+      simp [hC, hc1, hc2]
+    · simp [hC, hc1]
 
 /-! ### row_pair_mut (never overridden) -/
 
@@ -74,24 +353,87 @@ theorem C13_row_pair (m : Mode) (v : VW) (n : Nat) (h : v.Inv n) (a : Acc) (ha :
     ((r1 < v.numRows ∧ r2 < v.numRows ∧ r1 ≠ r2) →
       a.rowPairMut m r1 r2 = .ok (v.rowWin r1, v.rowWin r2) ∧ Win.Disjoint (v.rowWin r1) (v.rowWin r2)) ∧
     (¬ (r1 < v.numRows ∧ r2 < v.numRows ∧ r1 ≠ r2) → a.rowPairMut m r1 r2 = .error .panic) := by
-  sorry
+  have hR := ha.rows
+  constructor
+  · rintro ⟨hr1, hr2, hne⟩
+    refine ⟨?_, VW.rowWin_disjoint h hne⟩
+    rcases Nat.lt_or_gt_of_ne hne with hlt | hgt
+    · obtain ⟨it', it'', n1, n2⟩ := ha.nth_row_pair m hlt hw.2
+      rw [if_pos hr1] at n1
+      rw [if_pos hr2] at n2
+      have e2 : usub m r2 r1 = .ok (r2 - r1) := usub_ok m _ _ (by omega)
+      have e3 : usub m (r2 - r1) 1 = .ok (r2 - r1 - 1) := usub_ok m _ _ (by omega)
+      simp only [Acc.rowPairMut, hR, hr1, hr2, hne, hlt, n1, n2, e2, e3, unwrapWin,
+        not_true_eq_false, if_false, if_true, ok_bind, pure_eq]
+    · obtain ⟨it', it'', n1, n2⟩ := ha.nth_row_pair m hgt hw.1
+      rw [if_pos hr2] at n1
+      rw [if_pos hr1] at n2
+      have e2 : usub m r1 r2 = .ok (r1 - r2) := usub_ok m _ _ (by omega)
+      have e3 : usub m (r1 - r2) 1 = .ok (r1 - r2 - 1) := usub_ok m _ _ (by omega)
+      simp only [Acc.rowPairMut, hR, hr1, hr2, hne, show ¬ r1 < r2 by omega, n1, n2, e2, e3, unwrapWin,
+        not_true_eq_false, if_false, ok_bind, pure_eq]
+  · intro hn
+    unfold Acc.rowPairMut
+    by_cases hr1 : r1 < v.numRows
+    · by_cases hr2 : r2 < v.numRows
+      · have he : r1 = r2 := Classical.not_not.1 (fun hne => hn ⟨hr1, hr2, hne⟩)
+        simp [hR, hr2, he]
+      · simp [hR, hr1, hr2]
+    · simp [hR, hr1]
 
 /-! ### fill -/
 
 theorem C13_fill_owned (t : TD α) (h : t.Inv) (x : α) :
     t.fill x = t.asView.updCells t.data (fun _ => some x) ∧ t.fill x = List.replicate t.data.length x := by
-  sorry
+  refine ⟨?_, rfl⟩
+  obtain ⟨hvi, _⟩ := TD.asView_inv t h
+  unfold TD.fill
+  apply List.ext_getElem?
+  intro p
+  rw [VW.updCells_getElem?, List.getElem?_replicate]
+  by_cases hp : p < t.data.length
+  · have hlen := h.len
+    have hC : 0 < t.numCols := by
+      rcases Nat.eq_zero_or_pos t.numCols with h0 | h0
+      · rw [h0, Nat.zero_mul] at hlen; omega
+      · exact h0
+    have hc : p % t.numCols < t.asView.numCols := Nat.mod_lt _ hC
+    have hr : p / t.numCols < t.asView.numRows := Nat.div_lt_of_lt_mul (hlen ▸ hp)
+    have hpos : t.asView.pos (p % t.numCols) (p / t.numCols) = p := by
+      have := Nat.div_add_mod p t.numCols
+      simp only [VW.pos, TD.asView, TD.win]
+      rw [Nat.mul_comm]; omega
+    have hq := VW.coord?_pos hvi hc hr
+    rw [hpos] at hq
+    rw [if_pos hp, hq, List.getElem?_eq_getElem hp]
+    simp
+  · rw [if_neg hp, List.getElem?_eq_none (Nat.not_lt.1 hp)]
+    rfl
 
 theorem C13_fill_default (v : VW) (buf : List α) (h : v.Inv buf.length) (a : Acc) (ha : a.Of v buf.length) (x : α) :
     a.fill buf x = .ok (v.updCells buf (fun _ => some x)) := by
-  sorry
+  simp only [Acc.fill, ha.collect_rows, ok_bind, pure_eq]
+  rw [List.foldl_map]
+  congr 1
+  refine (VW.foldl_rows_upd (v := v) _ (fun _ => some x) ?_ buf rfl v.numRows (Nat.le_refl _)).trans ?_
+  · intro b r hb hr
+    exact VW.fillWin_row b (hb ▸ h) hr x
+  · apply VW.updCells_congr
+    intro c r _ hr
+    simp [hr]
 
 /-! ### the accessor of each implementor satisfies `Acc.Of` -/
 
 theorem C13_acc_owned (t : TD α) (h : t.Inv) : t.acc.Of t.asView t.data.length := by
-  sorry
+  obtain ⟨hwf, habs⟩ := C08_rows_owned t h
+  refine ⟨rfl, rfl, hwf, ?_⟩
+  show t.rows.abs t.numRows = _
+  rw [habs]
+  apply List.map_congr_left
+  intro r _
+  simp [TD.asView, VW.pos, TD.pos, TD.win]
 
 theorem C13_acc_view (m : Mode) (v : VW) (n : Nat) (h : v.Inv n) : ∃ a, v.acc m = .ok a ∧ a.Of v n := by
-  sorry
-
+  obtain ⟨it, he, hwf, habs⟩ := C08_rows_view m v n h
+  exact ⟨⟨v.numCols, v.numRows, it⟩, by simp [VW.acc, he], rfl, rfl, hwf, habs⟩
 end Toodee
